@@ -20,6 +20,7 @@ import (
 	"github.com/cnotch/ipchub/media/cache"
 	"github.com/cnotch/ipchub/stats"
 	"github.com/cnotch/ipchub/utils"
+	"github.com/cnotch/ipchub/utils/vhook"
 	"github.com/cnotch/queue"
 	"github.com/cnotch/xlog"
 )
@@ -177,6 +178,7 @@ func (s *Stream) close(status int32) error {
 		status = StreamClosed
 	}
 	atomic.StoreInt32(&s.status, status)
+	vhook.At("close.marked", s)
 
 	// 关闭 hls
 	if s.tsMuxer != nil {
@@ -207,8 +209,11 @@ func (s *Stream) WriteRtpPacket(packet *rtp.Packet) error {
 
 	atomic.AddUint64(&s.size, uint64(packet.Size()))
 
+	vhook.At("pub.begin", s)
 	keyframe := s.cache.CachePack(packet)
+	vhook.At("pub.cached", s)
 	s.consumptions.SendToAll(packet, keyframe)
+	vhook.At("pub.sent", s)
 
 	s.rtpDemuxer.WriteRtpPacket(packet)
 	return nil
@@ -234,8 +239,11 @@ func (s *Stream) WriteFlvTag(tag *flv.Tag) error {
 		return statusErrors[status]
 	}
 
+	vhook.At("flv.begin", s)
 	keyframe := s.flvCache.CachePack(tag)
+	vhook.At("flv.cached", s)
 	s.flvConsumptions.SendToAll(tag, keyframe)
+	vhook.At("flv.sent", s)
 	return nil
 }
 
@@ -278,10 +286,13 @@ func (s *Stream) startConsume(consumer Consumer, packetType PacketType, extra st
 		cache = s.flvCache
 	}
 
+	vhook.At("join.begin", c)
 	if useGopCache {
 		c.sendGop(cache) // 新消费者，先发送gop缓存
 	}
+	vhook.At("join.snap", c)
 	cs.Add(c)
+	vhook.At("join.added", c)
 
 	go c.consume()
 	return c.cid
